@@ -6,19 +6,22 @@ From FB Require Export C04.Model C04.Text Base.Run.
 Inductive case :=
 | COpt (d : action str) (t : option str) (r : res (option str))   (* quill::apply_diff_option *)
 | CApply (d : mdiffs) (t : mappings) (ns : str) (r : res mappings) (* MappingsDiff::apply_to *)
-| CDiff (a b : mappings) (r : res mdiffs)                          (* MappingsDiff::diff *)
+| CPair (a b : mappings) (rd : res mdiffs) (ns : str) (rr : option (res mappings))
+    (* rd = MappingsDiff::diff a b;  rr = apply_to(read_file(print(diff a b)), a, ns) when it was run *)
 | CRead (t : text) (r : res mdiffs)                                (* tiny_v2_diff::read_file *)
-| CPrint (d : mdiffs) (t : text)                                   (* the harness' printer = [print] *)
-| CRoundtrip (a b : mappings) (ns : str) (r : res mappings).       (* apply(read(print(diff a b)), a) *)
+| CPrint (d : mdiffs) (t : text).                                  (* the harness' printer = [print] *)
 
 Definition check (c : case) : bool :=
   match c with
   | COpt d t r => res_eqb (opt_eqb str_eqb) (apply_option str_eqb d t) r
   | CApply d t ns r => res_eqb mappings_eqb (apply_to d t ns) r
-  | CDiff a b r => res_eqb mdiffs_eqb (diff a b) r
+  | CPair a b rd ns rr =>
+      let d := diff a b in
+      res_eqb mdiffs_eqb d rd
+      && match rr with
+         | None => true
+         | Some r => res_eqb mappings_eqb (do d0 <- d; do d' <- read (print d0); apply_to d' a ns) r
+         end
   | CRead t r => res_eqb mdiffs_eqb (read t) r
   | CPrint d t => str_eqb (print d) t
-  | CRoundtrip a b ns r =>
-      res_eqb mappings_eqb
-        (do d <- diff a b; do d' <- read (print d); apply_to d' a ns) r
   end.
